@@ -52,6 +52,9 @@ def relevant(ob, pid):
         return True
     if pid == 'C12' and ob.get('kind') in ('index', 'requires@call') and ob.get('origin', 'expanded').startswith('expanded'):
         return True
+    if pid == 'C12' and ob.get('kind') == 'ensures' and '.wf()' in (ob.get('text') or ''):
+        # preservation of the representation invariant is what every later index obligation rests on
+        return True
     return False
 
 
@@ -61,6 +64,8 @@ def failed_relevant(fo, pid):
     if pid == 'C12':
         # memory-safety obligations: a slice-index precondition or a callee `requires` at a source call site
         if fo['kind'] in ('requires@call', 'index') and fo.get('site') and not str(fo.get('site_line', '')).startswith('contracts'):
+            return True
+        if fo['kind'] == 'ensures' and '.wf()' in fo.get('name', ''):
             return True
     return False
 
